@@ -3,8 +3,9 @@ import Iota.Driver.GenCode
 import Iota.Driver.GenSecp
 import Iota.Driver.GenAddr
 import Iota.Driver.GenBip39
+import Iota.Driver.GenKey
 
 namespace Iota.Driver
 /-- the model's ops and the ops answered by the generated code -/
-def allOps : List (String × Handler) := modelOps ++ GenCode.ops ++ GenSecp.ops ++ GenAddr.ops ++ GenBip39.ops
+def allOps : List (String × Handler) := modelOps ++ GenCode.ops ++ GenSecp.ops ++ GenAddr.ops ++ GenBip39.ops ++ GenKey.ops
 end Iota.Driver
